@@ -12,7 +12,8 @@
 (*   else.                                                                   *)
 (* kind "C" - command: the targets of a real build directory (c.T, the       *)
 (*   projection of its intro-targets.json) and a list of `meson compile`     *)
-(*   invocations c.runs, each [X : expressions, f : flags, cwd, n : how      *)
+(*   invocations c.runs, each [X : expressions, f : flags, cwd, bd : "ok" when -C names a     *)
+(*   configured build directory, n : how                                    *)
 (*   often the backend was started, argv : what it was given, nrc : the      *)
 (*   status it returned, rc : the status of meson, err : the error reported  *)
 (*   [k, x : index of the expression blamed, id, c : candidates named]].     *)
@@ -71,12 +72,16 @@ JudgeR(c) ==
     LET T == { Data.univ[j] : j \in Elems(c.t) }
         bad == { x \in 1..Len(Data.exprs) : ~Accepted(Data.exprs[x], T, GotR(c, x)) }
         \* one witness expression per (clause, shape, spec, impl)
-        fails == { Fail(x, Data.exprs[x], T, GotR(c, x)) : x \in bad }
+        \* the operands computed for a resolved target (recorded for some cases only: c.ops # <<>>)
+        badops == IF c.ops = <<>> THEN {}
+                  ELSE { x \in 1..Len(Data.exprs) : c.r[x] > 0 /\ c.ops[x] # Operands(Data.univ[c.r[x]]) }
+        fails == { Fail(x, Data.exprs[x], T, GotR(c, x)) : x \in bad } \cup
+                 { [x |-> x, clause |-> "Operands", shape |-> Shape(Data.exprs[x]), spec |-> "ok", impl |-> "ok"] : x \in badops }
         keys == { [clause |-> w.clause, shape |-> w.shape, spec |-> w.spec, impl |-> w.impl] : w \in fails }
         pick(k) == CHOOSE w \in fails : w.clause = k.clause /\ w.shape = k.shape /\ w.spec = k.spec /\ w.impl = k.impl
                                          /\ \A v \in fails : (v.clause = k.clause /\ v.shape = k.shape /\ v.spec = k.spec
                                                               /\ v.impl = k.impl) => w.x <= v.x
-    IN [id |-> c.id, clause |-> IF bad = {} THEN "ok" ELSE "Resolve", nbad |-> Cardinality(bad),
+    IN [id |-> c.id, clause |-> IF bad \cup badops = {} THEN "ok" ELSE "Resolve", nbad |-> Cardinality(bad \cup badops),
         fails |-> { pick(k) : k \in keys }]
 
 -----------------------------------------------------------------------------
@@ -87,7 +92,8 @@ RunClause(T, r) ==
     LET kind == PlanKind(r.f, r.X, T)
         must == StrictlyFailing(r.X, T)
     IN
-    IF kind = "usage" THEN (IF r.n = 0 /\ r.rc # 0 /\ r.err.k = "usage" THEN "ok" ELSE "TargetsAndCleanExclusive")
+    IF r.bd # "ok" THEN (IF r.n = 0 /\ r.rc # 0 /\ r.err.k = "nobuilddir" THEN "ok" ELSE "ConfiguredBuildDirRequired")
+    ELSE IF kind = "usage" THEN (IF r.n = 0 /\ r.rc # 0 /\ r.err.k = "usage" THEN "ok" ELSE "TargetsAndCleanExclusive")
     ELSE IF r.n = 0 THEN
         IF r.rc = 0 THEN "ErrorExitStatus"
         ELSE IF r.err.x \in 1..Len(r.X) THEN
